@@ -1,7 +1,7 @@
 """C07 - cancellation is never swallowed by scopes; the cancellation check reports it."""
 import random
 
-from harness.legs import cfg_text, leg_m, leg_mutant, leg_r, leg_t_gen
+from harness.legs import cfg_text, gen_traces, leg_m, leg_mutant, leg_r, leg_t_gen
 from props.scopelife_common import ScopeLifeDriver
 from props.scopetasks_common import ScopeTasksDriver
 from props.scopetasks_common import replay as _replay_tasks
@@ -58,7 +58,7 @@ def run(rep, work, tier, seed):
     # generated from ScopeTasks.tla (existential acceptance: the spec is nondeterministic where the stdlib is)
     from props.scopetasks_common import TRACE_KW, gen_trace
     rnd = random.Random(seed * 29 + 1)
-    traces = [gen_trace(rnd) for _ in range(150 if tier == "quick" else 2000)]
+    traces = gen_traces(rep, lambda: gen_trace(rnd), 150 if tier == "quick" else 2000)
     leg_t_gen(rep, work, SPEC, f"trace_{tier}", traces, **TRACE_KW)
     rep.assumptions += [
         "user code does not catch the cancellation (the property's own proviso); tasks obey cancellation at once",
